@@ -1061,6 +1061,7 @@ static PyObject* gbmv(PyObject *self, PyObject *args, PyObject *kwrds)
 
     if (ix == 0) err_nz_int("incx");
     if (iy == 0) err_nz_int("incy");
+    if (m < 0) err_nn_int("m");
     if (n < 0) n = A->ncols;
     if ((!m && trans == 'N') || (!n && (trans == 'T' || trans == 'C')))
        return Py_BuildValue("");
